@@ -27,18 +27,25 @@ def extract(ctx):
 
 
 def search(ctx):
-    """the table obligations broke: find a concrete expression by enumerating all operator
-    pairs / prefix forms against the documented grammar (Spec.pr), independent of the table"""
+    """the table obligations broke: find a concrete expression. The driver prints, for all operator
+    pairs and prefix/binary pairs, the minimal writing per the documented grammar (Spec.pr — it does
+    not look at the table) with the tree it stands for; the real parser must build that tree."""
+    if not os.path.exists(checklib.DRIVER):
+        return None
+    p = subprocess.run([checklib.DRIVER, "C03", "specprints"], stdout=subprocess.PIPE, stderr=subprocess.STDOUT,
+                       text=True, timeout=300)
+    path = os.path.join(ctx.work, "specprints.txt")
+    with open(path, "w") as f:
+        f.write(p.stdout)
     binp = ctx.harness or checklib.go_build(ctx)
-    env = dict(checklib.GOENV, VERIF_REPO=checklib.REPO)
-    p = subprocess.run([binp, "C03", "-tool", "search"], env=env, stdout=subprocess.PIPE,
-                       stderr=subprocess.STDOUT, text=True, timeout=600)
-    for line in p.stdout.splitlines():
+    q = subprocess.run([binp, "C03", "-tool", "parsecheck", path], env=dict(checklib.GOENV), stdout=subprocess.PIPE,
+                       stderr=subprocess.STDOUT, text=True, timeout=300)
+    for line in q.stdout.splitlines():
         if line.startswith("FOUND\t"):
             _, src, want, got = line.split("\t")
-            return checklib.write_replay(ctx, "input", {"source": src, "readable": src}, want, got,
-                                         "harness C03 -tool search (documented grammar vs. real parser)",
-                                         theorem="table obligations of Ecal.Props.C03")
+            return checklib.write_replay(ctx, "search", {"source": src, "readable": src}, want, got,
+                                         "driver C03 specprints | harness C03 -tool parsecheck",
+                                         theorem="table obligations in Ecal.Props.C03 (documented grammar vs. astNodeMap)")
     return None
 
 
